@@ -347,8 +347,12 @@ func (w *World) visitInstr(fr *frame, instr ssa.Instruction) continuation {
 			i := w.index(fr, fr.get(instr.Index), instr.Index.Type(), len(x))
 			fr.set(instr, copyVal(x[i]))
 		case Str:
-			i := w.index(fr, fr.get(instr.Index), instr.Index.Type(), x.Len())
-			fr.set(instr, w.strAt(x, i))
+			if t, ok := fr.get(instr.Index).(*Term); ok && !t.IsConst() && x.Len() <= 256 {
+				fr.set(instr, w.symIndexStr(fr, x, t, instr.Index.Type()))
+			} else {
+				i := w.index(fr, fr.get(instr.Index), instr.Index.Type(), x.Len())
+				fr.set(instr, w.strAt(x, i))
+			}
 		default:
 			panic(fmt.Sprintf("unexpected x type in Index: %T", x))
 		}
